@@ -707,6 +707,9 @@ impl<'i, I: Interner> DisplayUnsat<'i, I> {
                 (
                     DisplayOp::Requirement(version_set_id, edges),
                     indenter.push_level(),
+                    // The candidates on the path from the top level to this entry. Used to
+                    // detect dependency cycles, which would otherwise be unfolded forever.
+                    Vec::<NodeIndex>::new(),
                 )
             })
             .collect::<Vec<_>>();
@@ -716,7 +719,7 @@ impl<'i, I: Interner> DisplayUnsat<'i, I> {
             stack[0].1.set_last();
         }
 
-        while let Some((node, indenter)) = stack.pop() {
+        while let Some((node, indenter, path)) = stack.pop() {
             let top_level = indenter.is_at_top_level();
             let indent = indenter.get_indent();
 
@@ -764,6 +767,7 @@ impl<'i, I: Interner> DisplayUnsat<'i, I> {
                                 (
                                     DisplayOp::Candidate(graph.edge_endpoints(e).unwrap().1),
                                     indenter.push_level(),
+                                    path.clone(),
                                 )
                             })
                             .collect();
@@ -772,7 +776,7 @@ impl<'i, I: Interner> DisplayUnsat<'i, I> {
                         let mut deduplicated_children = Vec::new();
                         let mut merged_and_seen = HashSet::new();
                         for child in children {
-                            let (DisplayOp::Candidate(child_node), _) = child else {
+                            let (DisplayOp::Candidate(child_node), _, _) = child else {
                                 unreachable!()
                             };
                             let solvable_id = graph[child_node].solvable_or_root();
@@ -820,6 +824,7 @@ impl<'i, I: Interner> DisplayUnsat<'i, I> {
                                 (
                                     DisplayOp::Candidate(graph.edge_endpoints(e).unwrap().1),
                                     indenter.push_level(),
+                                    path.clone(),
                                 )
                             })
                             .collect();
@@ -828,7 +833,7 @@ impl<'i, I: Interner> DisplayUnsat<'i, I> {
                         let mut deduplicated_children = Vec::new();
                         let mut merged_and_seen = HashSet::new();
                         for child in children {
-                            let (DisplayOp::Candidate(child_node), _) = child else {
+                            let (DisplayOp::Candidate(child_node), _, _) = child else {
                                 unreachable!()
                             };
                             let Some(solvable_id) = graph[child_node].solvable() else {
@@ -859,6 +864,20 @@ impl<'i, I: Interner> DisplayUnsat<'i, I> {
                     let solvable_id = graph[candidate].solvable_or_root();
 
                     if reported.contains(&solvable_id) {
+                        continue;
+                    }
+
+                    // A candidate that (transitively) requires itself: its requirements are
+                    // already being reported further up, don't unfold them again.
+                    if path.contains(&candidate) {
+                        let version = solvable_id
+                            .solvable()
+                            .map(|s| self.interner.display_merged_solvables(&[s]).to_string())
+                            .unwrap_or_else(|| "<root>".to_string());
+                        writeln!(
+                            f,
+                            "{indent}{version}, which is part of a dependency cycle reported above."
+                        )?;
                         continue;
                     }
 
@@ -961,9 +980,12 @@ impl<'i, I: Interner> DisplayUnsat<'i, I> {
                                 })
                             })
                             .map(|(version_set_id, edges)| {
+                                let mut path = path.clone();
+                                path.push(candidate);
                                 (
                                     DisplayOp::Requirement(version_set_id, edges),
                                     indenter.push_level(),
+                                    path,
                                 )
                             })
                             .collect::<Vec<_>>();
